@@ -24,10 +24,10 @@ type vfInElem struct {
 }
 
 type vfC05Case struct {
-	Mode    string     `json:"mode"`  // client-tcp | component-tcp | client-ws
-	SM      bool       `json:"sm"`    // stream management negotiated
-	End     string     `json:"end"`   // sentinel | fin | rst
-	Gate    bool       `json:"gate"`  // handler of the first stanza waits for the second one to start
+	Mode    string     `json:"mode"` // client-tcp | component-tcp | client-ws
+	SM      bool       `json:"sm"`   // stream management negotiated
+	End     string     `json:"end"`  // sentinel | fin | rst
+	Gate    bool       `json:"gate"` // handler of the first stanza waits for the second one to start
 	Seed    int64      `json:"seed"`
 	WSStyle string     `json:"wsstyle,omitempty"` // one | several | fragmented
 	Elems   []vfInElem `json:"elems"`
@@ -93,12 +93,12 @@ func vfEsc(s string) string {
 }
 
 type vfC05Result struct {
-	handled    []string
-	kinds      []string
-	answers    int
-	errs       []string
-	connectErr error
-	peerErr    error
+	handled      []string
+	kinds        []string
+	answers      int
+	errs         []string
+	connectErr   error
+	peerErr      error
 	inconclusive string
 }
 
